@@ -54,7 +54,7 @@ def gen(seed, tier):
         if r.random() < 0.3:
             crashes.append(c1 + P.loguniform_int(r, 1, 80))
         f["crash_at_consult"] = crashes
-    pl["objective_form"] = r.choice(["closure", "lambda", "callable"])
+    pl["objective_form"] = r.choice(["closure", "lambda", "callable", "global_counter"])
     if seed % 5 == 0:
         pl["redirect_stdout"] = True
     for l in pl["levels"]:
@@ -94,6 +94,10 @@ class C19Monitor(Monitor):
         self.L = limit_of(w.plan)
         self.best_floor = None
         self.last_verdict = None
+        from .. import build as _b
+
+        self._g0 = len(_b.GLOBAL_CALLS)
+        self._shadow_calls = 0
 
     # ------------------------------------------------------------------ observation of a tree
     def _accessors(self, tree):
@@ -248,6 +252,9 @@ class C19Monitor(Monitor):
             return  # the live run returns at this boundary
         st = (np.random.get_state(), _random.getstate())
         clock_now = w.clock.now
+        from .. import build as _b
+
+        g_before = len(_b.GLOBAL_CALLS)
         w.shadow = True
         try:
             t2.run_step()
@@ -257,6 +264,7 @@ class C19Monitor(Monitor):
             self.shadow = {"error": type(e).__name__, "boundary": w.n_boundaries, "restarts": w.restarts}
         finally:
             w.shadow = False
+            self._shadow_calls += len(_b.GLOBAL_CALLS) - g_before
             w.clock.now = clock_now
             np.random.set_state(st[0])
             _random.setstate(st[1])
@@ -357,6 +365,15 @@ class C19Monitor(Monitor):
         w = self.w
         if tree is None:
             return
+        if w.plan.get("objective_form") == "global_counter" and outcome in ("returned",) and not w.plan.get("nan_stratum"):
+            from .. import build as _b
+
+            seen = len(_b.GLOBAL_CALLS) - self._g0 - self._shadow_calls
+            w.probe("c19-objective-side-effects-judged")
+            if seen != w.n_invocations:
+                self.violate("objective-side-effects-lost" + ("-after-restore" if w.restarts else ""),
+                             {"calls_seen_by_module_level_counter": seen, "objective_invocations": w.n_invocations,
+                              "restarts": w.restarts})
         if w.restarts and outcome == "returned":
             w.probe("c19-continued-run-terminated")
             self._continued_checks(tree, "end")
